@@ -63,6 +63,8 @@ class P(flow.Plan):
             rng = random.Random(sd * 31337 + i)
             ln = rng.choice([0, 1, 5, 40, 300, 700]) if i % 5 else rng.randint(0, 1200)
             p_lf = rng.choice([0.0, 0.02, 0.1, 0.5, 1.0])
+            if i % 7 == 3:
+                ln, p_lf = rng.choice([300, 500, 700]), rng.choice([0.0, 0.002, 0.004])
             stream = bytes(10 if rng.random() < p_lf else rng.randint(0, 255) for _ in range(ln))
             if rng.random() < 0.5 and stream and stream[-1] != 10:
                 stream += b"\n"
@@ -71,6 +73,8 @@ class P(flow.Plan):
                 if rng.random() < 0.25:
                     script += ["again"] * rng.randint(1, 3)
                 k = rng.choice([1, 1, 2, 3, 7, 64, 255, 256, 256]) if rng.random() < 0.7 else rng.randint(1, 256)
+                if i % 7 == 3:
+                    k = rng.randint(1, 3)       # a long line trickling in (added after seed C17f: a cap on buffered fragments)
                 k = min(k, left)
                 script.append(k)
                 left -= k
